@@ -162,4 +162,20 @@ s.mutants = SEND_MUTANTS['C02']
 m = MQUnit(keep=keep_for('C02.'))
 m.mutants = tuple(x for x in MQUnit.mutants if 'C02' in x[4])
 from .sendwhole import SendGlue
-UNITS = [r, s, m, WireLemmas(), LemmaUnit('C02.once lemma', once_lemmas), AssemblyUnit(), SendGlue()]
+from .c09 import CodecUnit
+
+
+class PayloadCopyUnit(CodecUnit):
+    """the codec unit of C09 restricted to the clause C02 needs from it: what is handed to the wire is a copy, so nothing the filter does to its frame after send() can alter what is delivered"""
+    name = 'MQ.frames2topicmsgs (payload is a copy)'
+    mutants = ()
+
+    def run(self, shape, dec):
+        ex = super().run(shape, dec)
+        kept = [(n, f, k) for (n, f, k) in ex.oblig if 'raw_copy' in n or n.startswith(('implicit:', 'CANARY'))]
+        del ex.oblig[:]
+        list.extend(ex.oblig, kept)
+        return ex
+
+
+UNITS = [r, s, m, WireLemmas(), LemmaUnit('C02.once lemma', once_lemmas), AssemblyUnit(), SendGlue(), PayloadCopyUnit()]
